@@ -3,14 +3,17 @@
 // on stdin and writes JSONL {"id":n,"result":r} or {"id":n,"error":e} on stdout.
 // Every job runs in a fresh V8 context (no state is shared between jobs); the
 // result is the string conversion of the script's completion value. A per-job
-// watchdog terminates runaway scripts (reported as error "timeout", which the
-// caller treats as inconclusive/violating according to its own rules).
+// watchdog (VJS_TIMEOUT_MS, default 20 s wall) terminates runaway scripts; they
+// are reported as error "timeout", which the caller retries and otherwise
+// treats as inconclusive.
 package main
 
 import (
 	"bufio"
 	"encoding/json"
 	"os"
+	"strconv"
+	"sync/atomic"
 	"time"
 
 	v8 "rogchap.com/v8go"
@@ -57,23 +60,34 @@ func main() {
 	}
 }
 
+var timeout = 20 * time.Second
+
+func init() {
+	if ms, err := strconv.Atoi(os.Getenv("VJS_TIMEOUT_MS")); err == nil && ms > 0 {
+		timeout = time.Duration(ms) * time.Millisecond
+	}
+}
+
 func run(iso *v8.Isolate, j job) reply {
 	ctx := v8.NewContext(iso)
 	defer ctx.Close()
-	done := make(chan struct{})
-	timedOut := false
+	done, stopped := make(chan struct{}), make(chan struct{})
+	var timedOut atomic.Bool
 	go func() {
+		defer close(stopped)
+		t := time.NewTimer(timeout)
+		defer t.Stop()
 		select {
 		case <-done:
-		case <-time.After(5 * time.Second):
-			timedOut = true
+		case <-t.C:
+			timedOut.Store(true)
 			iso.TerminateExecution()
-			<-done
 		}
 	}()
 	val, err := ctx.RunScript(j.Script, "case.js")
 	close(done)
-	if timedOut {
+	<-stopped // the watchdog can no longer terminate a later job
+	if timedOut.Load() {
 		msg := "timeout"
 		return reply{ID: j.ID, Error: &msg}
 	}
